@@ -12,7 +12,7 @@
    `one_word u w` decides whether w alone is exactly one Word token, `lint_text` = tokenise, then lint. *)
 Require Import Base Tables_lexer Lexer Condense Tables_spellnorm SpellDecision SpellDecisionProofs.
 Require Import Tables_f24 C06Words C06WordsProofs C06TextProofs C06AlnumProofs C06DictProofs.
-Require Import TokenInv C06Sentence C06SentenceProofs.
+Require Import TokenInv C06Sentence C06SentenceProofs C06ShapesProofs.
 
 (* the decision, exactly: a word token with text w is accepted iff some entry has its id and is compatible with
    the active dialect, and some entry is spelt — up to normalisation of both sides (ebb53b3) — exactly like w or
@@ -775,3 +775,43 @@ Proof.
   split; [unfold dict_nodup; vm_compute; repeat constructor; cbn; intuition discriminate|].
   repeat split; vm_compute; reflexivity.
 Qed.
+
+(* ================= phase 5: the one-token entries outside the alnum class (13 on the pinned tree) ================= *)
+(* every entry of the DERIVED table that the model lexer makes one Word token is an alnum word (C06_alnum_word_one_word) or
+   lies in exactly one of four decidable shape classes: digit + s (0s 1s), word ' letter 's (Baha'i's Shari'a's), dotted
+   initialism (N.S.A. a.m. e.g. i.e. p.m. s.t.), etc. / vs. / et al.  vm_compute over the table; re-checked when the dictionary
+   changes.  (Partial as a characterisation: only the first class has a general one-token theorem, below; for the other
+   three the one-token fact is the table-level C06_dict_nonsimple_multi_iff.) *)
+Theorem C06_table_only_shapes_classified :
+  (forall e, In e dict_nonsimple_entries -> one_word f24_uni e = true ->
+     alnum_word f24_uni e \/ shape_count f24_uni e = 1) /\
+  map (fun p => length (filter p table_only_entries))
+      [digit_plural; double_apostrophe f24_uni; dotted_initialism f24_uni; latin_abbrev] = [2; 2; 6; 3] /\
+  length table_only_entries = 13.
+Proof. exact (conj shapes_classified (proj2 shapes_check)). Qed.
+Check C06_table_only_shapes_classified :
+  (forall e, In e dict_nonsimple_entries -> one_word f24_uni e = true ->
+     alnum_word f24_uni e \/ shape_count f24_uni e = 1) /\
+  map (fun p => length (filter p table_only_entries))
+      [digit_plural; double_apostrophe f24_uni; dotted_initialism f24_uni; latin_abbrev] = [2; 2; 6; 3] /\
+  length table_only_entries = 13.
+Print Assumptions C06_table_only_shapes_classified.
+
+(* an ASCII digit followed by `s` is exactly one Word token — for EVERY instantiation of the Unicode predicates (no law
+   needed: lex_plural_digit answers before any predicate is asked) *)
+Theorem C06_digit_plural_one_word :
+  forall (u : uni) (w : text), digit_plural w = true ->
+  document_plain u w = Ok [mktok (mkspan 0 (length w)) KWord] /\ one_word u w = true.
+Proof. exact digit_plural_document. Qed.
+Check C06_digit_plural_one_word :
+  forall (u : uni) (w : text), digit_plural w = true ->
+  document_plain u w = Ok [mktok (mkspan 0 (length w)) KWord] /\ one_word u w = true.
+Print Assumptions C06_digit_plural_one_word.
+
+(* non-vacuity: 0s is of the class and a dictionary entry; the classes are inhabited by the entries named above *)
+Example C06_nonvacuous_shapes :
+  digit_plural [48;115]%N = true /\ In [48;115]%N dict_nonsimple_entries /\
+  double_apostrophe f24_uni [66;97;104;97;39;105;39;115]%N = true /\
+  dotted_initialism f24_uni [78;46;83;46;65;46]%N = true /\ latin_abbrev [101;116;32;97;108;46]%N = true /\
+  shape_count f24_uni [77;80;51]%N = 0.
+Proof. repeat split; try (vm_compute; reflexivity). apply mem_text_In; vm_compute; reflexivity. Qed.
